@@ -7,7 +7,7 @@
 From Coq Require Import ZArith List Bool.
 From RecordUpdate Require Import RecordSet.
 From Common Require Import Res.
-From Core Require Import World Model Step Reach Rel_Frame Proofs_C03 Proofs_C03b Proofs_C03c Proofs_C03d Proofs_C03e Proofs_C03f Proofs_C03g Proofs_C03h.
+From Core Require Import World Model Step Reach Rel_Frame Proofs_C03 Proofs_C03b Proofs_C03c Proofs_C03d Proofs_C03e Proofs_C03f Proofs_C03g Proofs_C03h Proofs_C03i.
 Import ListNotations RecordSetNotations.
 Open Scope Z_scope.
 
@@ -391,3 +391,25 @@ Example C03_random_pass_by_next_example :
   /\ map tlid (starts (events w')) = [4; 3; 2; 1] /\ shuffled w' = [] /\ option_map tlid (current w') = Some 4.
 Proof. vm_compute. repeat split; reflexivity. Qed.
 Print Assumptions C03_random_pass_by_next_example.
+
+(* random: an entry started by play(tlid) leaves the shuffle order wherever it sits in it, so the
+   player does not select it again in this pass; it is announced exactly once (ended(c) /
+   state / started(x)). *)
+Theorem C03_play_tlid_leaves_shuffle_order :
+  forall shuf f i x c w,
+  settled_on w c -> consume w = false -> 1 <= i ->
+  find (fun y => tlid y =? i) (World.tl w) = Some x -> accepts w x ->
+  let w' := run_world shuf (S f) w [Play (Some i); Deliver; Deliver; Deliver; Deliver] in
+  shuffled w' = (if random w && mem_tlt x (shuffled w) then remove_first x (shuffled w) else shuffled w)
+  /\ events w' = EvStarted x :: EvStateChanged (pstate w) Playing :: EvEnded c (a_pos w) :: events w.
+Proof. exact play_tlid_leaves_order. Qed.
+Print Assumptions C03_play_tlid_leaves_shuffle_order.
+
+Example C03_play_tlid_mid_pass_example :
+  let w := run_world shuf_concrete 50 (init_world 50 [Playable; Playable; Playable; Playable] [Some 900; Some 900; Some 900; Some 900] [] None None)
+             [Add [0; 1; 2; 3] None; SetMode 1 true; Play None; Deliver; Deliver; Deliver; Deliver] in
+  let w' := run_world shuf_concrete 50 w [Play (Some 3); Deliver; Deliver; Deliver; Deliver] in
+  map tlid (shuffled w) = [2; 3; 4] /\ option_map tlid (current w) = Some 1
+  /\ map tlid (shuffled w') = [2; 4] /\ option_map tlid (current w') = Some 3.
+Proof. vm_compute. repeat split; reflexivity. Qed.
+Print Assumptions C03_play_tlid_mid_pass_example.
